@@ -60,6 +60,9 @@
 (* Implementation-shaped layer: one scanner run = LoadIncludes(cold|warm)  *)
 (* -> FeedBlocks(perm) -> FeedSymbols(order) -> Promote -> Transform ->    *)
 (* Emit, every set iteration choosing its own permutation.                 *)
+(* Field lists are list OBJECTS: the record of a second typedef of a tag   *)
+(* aliases the list of the first; a later body reaches it only because     *)
+(* _parse_fields appends in place (AppendInPlace).                         *)
 (* Property layer: Deterministic (two-copy / self-composed: both runs get  *)
 (* the same input but choose permutations, feed orders and cache history   *)
 (* independently and must Emit equal output) and SiblingOrder.             *)
@@ -73,6 +76,9 @@ CONSTANTS
     MainPosFix,      \* TRUE (current code, fd38255): get_main_position() iterates sorted(file_positions); FALSE: set order
     CacheFaithful,   \* a namespace served by CacheStore.load equals a fresh GIRParser parse
     LastBlockWins,   \* parse_comment_blocks: comment_blocks[name] = block (the last one wins)
+    AppendInPlace,   \* Transformer._parse_fields appends to the list object the compound already has (TRUE: the code);
+                     \* FALSE: it binds a new list -- the record of a SECOND typedef of the tag, which shares the list
+                     \* object of the first (_create_typedef_compound: new_compound.fields = compound.fields), misses a later body
     \* preconditions of the statement; TRUE lifts one (what-if configurations)
     DupBodies,       \* the body of one struct tag may be fed twice (legal input since fd38255: Order_dup.cfg)
     DupBlocks,       \* two comment blocks may carry the same identifier
@@ -101,7 +107,11 @@ StableSort(s) ==
 (*           blocks : Seq([ident, cf, pay]),    deps : "chain"|"diamond"]  *)
 (* kind "rec": pat "T" typedef only (opaque) | "TS" typedef + body | "S"   *)
 (*   body only (promoted under its tag) | "A" typedef of an anonymous      *)
-(*   struct | "TSS" typedef + two bodies (only if DupBodies);              *)
+(*   struct | "TSS" typedef + two bodies (only if DupBodies) | "TTS" two   *)
+(*   typedef names (n and n2) of one tag + body (the GObject /             *)
+(*   GInitiallyUnowned pattern): the first typedef fed names the tag's     *)
+(*   record, the second gets a record of its own sharing the field list;   *)
+(*   the body may come before, between or after them;                      *)
 (* kind "fn": owner = n of a record (method candidate) or 0, uses = a      *)
 (*   dependency type id or "-";  kind "alias".                             *)
 (* n is the name of the declaration (names are unique, ordered by <).      *)
@@ -114,6 +124,8 @@ Syms(d, base) ==
           [] d.pat = "TS"  -> << [sk |-> "typedef", n |-> d.n, pos |-> base + 1], [sk |-> "body", n |-> d.n, pos |-> base + 2] >>
           [] d.pat = "S"   -> << [sk |-> "body", n |-> d.n, pos |-> base + 2] >>
           [] d.pat = "A"   -> << [sk |-> "anon", n |-> d.n, pos |-> base + 1] >>
+          [] d.pat = "TTS" -> << [sk |-> "typedef", n |-> d.n, pos |-> base + 1], [sk |-> "typedef2", n |-> d.n, pos |-> base + 4],
+                                 [sk |-> "body", n |-> d.n, pos |-> base + 2] >>
           [] d.pat = "TSS" -> << [sk |-> "typedef", n |-> d.n, pos |-> base + 1], [sk |-> "body", n |-> d.n, pos |-> base + 2],
                                  [sk |-> "body", n |-> d.n, pos |-> base + 3] >>
     ELSE << [sk |-> d.kind, n |-> d.n, pos |-> base + 1] >>
@@ -127,9 +139,12 @@ DeclOf(inp, n) == inp.decls[CHOOSE i \in 1..Len(inp.decls) : inp.decls[i].n = n]
 \* one declaration in any order, declarations in header order); FullPerm = TRUE additionally explores every
 \* order of the declarations themselves (the sibling order of the output must not depend on it)
 RECURSIVE DeclOrders(_, _)
+\* which of two typedef names comes first decides which record is "the" record of the tag (sibling order of two
+\* declarations, not typedef/struct order): it is kept; the body takes every position relative to them
+TypedefsInOrder(f) == \A i, j \in 1..Len(f) : (f[i].sk = "typedef2" /\ f[j].sk = "typedef" /\ f[i].n = f[j].n) => j < i
 DeclOrders(decls, i) == IF i > Len(decls) THEN {<<>>}
-                        ELSE {a \o b : a \in Perms(Range(Syms(decls[i], 10 * i))), b \in DeclOrders(decls, i + 1)}
-FeedOrders(inp) == IF FullPerm THEN Perms(Range(Canon(inp))) ELSE DeclOrders(inp.decls, 1)
+                        ELSE {a \o b : a \in {x \in Perms(Range(Syms(decls[i], 10 * i))) : TypedefsInOrder(x)}, b \in DeclOrders(decls, i + 1)}
+FeedOrders(inp) == IF FullPerm THEN {x \in Perms(Range(Canon(inp))) : TypedefsInOrder(x)} ELSE DeclOrders(inp.decls, 1)
 
 (* --------------------- dependency GIRs (fixed graph) ------------------ *)
 DepNames == {"GLib", "GObject", "Gio", "DepA", "DepB", "DepC"}
@@ -164,14 +179,16 @@ ByKey(K) == IF K = {} THEN <<>> ELSE LET x == CHOOSE y \in K : \A z \in K : y.ke
 SortedIncl(S) == ByKey({[key |-> IncKey(d), v |-> d] : d \in S})
 
 (* ------------------------- one scanner run ---------------------------- *)
+Second(n) == n + 5                                 \* the second typedef name of tag n (pattern "TTS")
 Fields(n) == <<n * 10 + 1, n * 10 + 2>>            \* the member list of the body of tag n (declaration order)
 NoNode == [kind |-> "none"]
-NewRec(named, fields, opaque, poss) ==
+\* tag: the struct tag whose body defines the fields; share: the node whose field LIST OBJECT this node aliases (0: its own)
+NewRec(named, fields, opaque, poss, tag, share) ==
     [kind |-> "rec", named |-> named, hidden |-> FALSE, fields |-> fields, opaque |-> opaque, poss |-> poss,
-     doc |-> 0, target |-> "-", methods |-> <<>>]
+     doc |-> 0, target |-> "-", methods |-> <<>>, tag |-> tag, share |-> share]
 NewLeaf(kind, poss) ==
     [kind |-> kind, named |-> TRUE, hidden |-> FALSE, fields |-> <<>>, opaque |-> FALSE, poss |-> poss,
-     doc |-> 0, target |-> "-", methods |-> <<>>]
+     doc |-> 0, target |-> "-", methods |-> <<>>, tag |-> 0, share |-> 0]
 
 \* Transformer.parse: one symbol.  st = [node : n -> node record, names : Seq(n) (Namespace.names), tagns : Seq(n) (_tag_ns)]
 Traverse(st, sym) ==
@@ -181,13 +198,22 @@ Traverse(st, sym) ==
            IF InSeq(n, st.tagns)
            THEN \* the tag exists without a name: the first typedef clobbers name and ctype, parse() appends it
                 [st EXCEPT !.node[n].named = TRUE, !.node[n].poss = @ \cup {P(TRUE)}, !.names = Append(@, n)]
-           ELSE [st EXCEPT !.node[n] = NewRec(TRUE, <<>>, TRUE, {P(TRUE)}), !.names = Append(@, n), !.tagns = Append(@, n)]
+           ELSE [st EXCEPT !.node[n] = NewRec(TRUE, <<>>, TRUE, {P(TRUE)}, n, 0), !.names = Append(@, n), !.tagns = Append(@, n)]
+      [] sym.sk = "typedef2" ->                     \* _create_typedef_compound, the tag already has a NAMED record: another
+           LET n2 == Second(n) IN                   \* record under the second name, `new_compound.fields = compound.fields`
+           IF InSeq(n, st.tagns) /\ st.node[n].named
+           THEN [st EXCEPT !.node[n2] = NewRec(TRUE, st.node[n].fields, FALSE, {P(TRUE)}, n, n), !.names = Append(@, n2)]
+           ELSE st                                  \* (not reachable: the first typedef is fed first)
       [] sym.sk = "body" ->                         \* _create_tag_ns_compound (+ _append_new_node: `original is node`)
-           IF InSeq(n, st.tagns)
-           THEN [st EXCEPT !.node[n].fields = @ \o Fields(n), !.node[n].opaque = FALSE, !.node[n].poss = @ \cup {P(FALSE)}]
-           ELSE [st EXCEPT !.node[n] = NewRec(FALSE, Fields(n), FALSE, {P(FALSE)}), !.tagns = Append(@, n)]
+           IF InSeq(n, st.tagns)                    \* _parse_fields: every node aliasing the list sees an in-place append
+           THEN [st EXCEPT !.node = [x \in DOMAIN st.node |->
+                                       IF x = n THEN [st.node[n] EXCEPT !.fields = @ \o Fields(n), !.opaque = FALSE, !.poss = @ \cup {P(FALSE)}]
+                                       ELSE IF st.node[x].kind = "rec" /\ st.node[x].share = n /\ AppendInPlace
+                                            THEN [st.node[x] EXCEPT !.fields = @ \o Fields(n)]
+                                       ELSE st.node[x]]]
+           ELSE [st EXCEPT !.node[n] = NewRec(FALSE, Fields(n), FALSE, {P(FALSE)}, n, 0), !.tagns = Append(@, n)]
       [] sym.sk = "anon" ->                         \* typedef struct { .. } X;
-           [st EXCEPT !.node[n] = NewRec(TRUE, Fields(n), FALSE, {P(TRUE)}), !.names = Append(@, n)]
+           [st EXCEPT !.node[n] = NewRec(TRUE, Fields(n), FALSE, {P(TRUE)}, n, 0), !.names = Append(@, n)]
       [] OTHER ->                                   \* function, alias
            [st EXCEPT !.node[n] = NewLeaf(sym.sk, {P(sym.sk = "alias")}), !.names = Append(@, n)]
 
@@ -269,7 +295,7 @@ Ordered(st, seq, keyed) ==
 EmitNode(st, n, pos) ==
     LET x == st.node[n]
         ms == Ordered(st, x.methods, SortMembers) IN
-    [name |-> NameKey(st, n), kind |-> x.kind, pos |-> pos[n], opaque |-> x.opaque, fields |-> x.fields, doc |-> x.doc,
+    [name |-> NameKey(st, n), kind |-> x.kind, tag |-> x.tag, pos |-> pos[n], opaque |-> x.opaque, fields |-> x.fields, doc |-> x.doc,
      target |-> x.target,
      methods |-> [i \in 1..Len(ms) |-> [name |-> ms[i], pos |-> pos[ms[i]], doc |-> st.node[ms[i]].doc, target |-> st.node[ms[i]].target]]]
 Written(st, pos, incl) ==
@@ -285,7 +311,8 @@ VARIABLES input,    \* the common input of both runs
           diag      \* diag[c] = the order of its "unknown parameter" diagnostics (S4; outside the statement)
 vars == <<input, turn, pc, m, out, diag>>
 
-Slots(inp) == {inp.decls[i].n : i \in 1..Len(inp.decls)} \cup {inp.blocks[i].ident : i \in 1..Len(inp.blocks)}
+Slots(inp) == {inp.decls[i].n : i \in 1..Len(inp.decls)} \cup {Second(inp.decls[i].n) : i \in {j \in 1..Len(inp.decls) : inp.decls[j].pat = "TTS"}}
+              \cup {inp.blocks[i].ident : i \in 1..Len(inp.blocks)}
 M0(inp) == [parsed |-> <<>>, defs |-> [d \in DepNames |-> {}], dict |-> <<>>,
             st |-> [node |-> [n \in Slots(inp) |-> NoNode], names |-> <<>>, tagns |-> <<>>]]
 Init == /\ input \in Inputs
@@ -351,7 +378,7 @@ SortedMethods(o) == \A k \in 1..Len(o.nodes) : \A i, j \in 1..Len(o.nodes[k].met
                         o.nodes[k].methods[i].name < o.nodes[k].methods[j].name
 FieldsInDeclOrder(o) == \A k \in 1..Len(o.nodes) :
                           (o.nodes[k].kind = "rec" /\ o.nodes[k].fields # <<>> /\ ~DupBodies) =>
-                             o.nodes[k].fields = Fields(IF o.nodes[k].name > 1000 THEN o.nodes[k].name - 1000 ELSE o.nodes[k].name)
+                             o.nodes[k].fields = Fields(o.nodes[k].tag)
 SortedIncludes(o) == \A i, j \in 1..Len(o.includes) : i < j => IncKey(o.includes[i]) < IncKey(o.includes[j])
 SiblingOrder == \A c \in {1, 2} : turn > c =>
                    /\ SortedNs(out[c]) /\ SortedMethods(out[c]) /\ FieldsInDeclOrder(out[c]) /\ SortedIncludes(out[c])
